@@ -287,6 +287,8 @@ SIZE_FAMILIES = {
     # openers that share their "*" with what looks like a closer: "/*/ /*/ /*/ ..." never closes anything
     # a lone double quote in a line comment before the nest, another quote after it: a guard that pairs quotes without knowing comments is blind
     "deeply-nested-block-comments-between-unrelated-quotes": lambda n: b'// a 6" nail\n' + b"/*" * (n // 4) + b" x " + b"*/" * (n // 4) + b'\nlet s = "x";\nfn f() { info!("x"); }\n',
+    # braces that never close inside a key-value value: block skipping must neither recurse nor rescan per brace
+    "unclosed-braces-in-a-key-value": lambda n: b"fn f() { info!(a = b " + b"{" * (n // 2) + b' "m"); }\nfn g() { info!("x"); }\n',
     "slash-star-slash-chain": lambda n: b"/*/ " * (n // 4) + b'\nfn f() { info!("x"); }\n',
     "long-path-chain-without-bang": lambda n: b"let x = a" + b"::a" * (n // 3) + b';\nfn f() { info!("x"); }\n',
     "long-path-chain": lambda n: b"a" + b"::a" * (n // 3) + b'!("x");\nfn f() { info!("x"); }\n',
@@ -326,7 +328,7 @@ def size_family(v, work, tier, pool):
                 for check in (True, False):
                     jobs.append((fam, size, structured, check, work))
     # recursion probes at full depth in both tiers (they are cheap: a bounded parser rejects or skips them at once)
-    for fam in ("deeply-nested-block-comments", "deeply-nested-comment-openers-in-string-literal", "deeply-nested-comment-openers-after-quote-char", "deeply-nested-block-comments-between-unrelated-quotes", "slash-star-slash-chain", "long-path-chain-without-bang", "long-path-chain"):
+    for fam in ("deeply-nested-block-comments", "deeply-nested-comment-openers-in-string-literal", "deeply-nested-comment-openers-after-quote-char", "deeply-nested-block-comments-between-unrelated-quotes", "unclosed-braces-in-a-key-value", "slash-star-slash-chain", "long-path-chain-without-bang", "long-path-chain"):
         for size in (10 ** 6, 4 * 10 ** 6):
             jobs.append((fam, size, False, True, work))
             jobs.append((fam, size, True, False, work))
@@ -352,7 +354,7 @@ def size_family(v, work, tier, pool):
                             {"family": fam, "bytes": nbytes, "mode": "check" if check else "edit", "structured": structured,
                              "timed_out": timed_out, "signal": sig, "exit": ex, "wall_s": round(wall, 2), "stderr": err.decode("utf-8", "replace")})
     v.coverage["max_wall_s_by_family"] = walls
-    v.subspace("size family: 8 ordinary shapes + 7 recursion / rescan probes x sizes %r x style x mode (wall limit 100 s up to 100 kB, 400 s up to 1 MB, 1800 s beyond)" % sizes, len(jobs))
+    v.subspace("size family: 8 ordinary shapes + 8 recursion / rescan probes x sizes %r x style x mode (wall limit 100 s up to 100 kB, 400 s up to 1 MB, 1800 s beyond)" % sizes, len(jobs))
 
 
 def _rep(unit, n):
